@@ -47,19 +47,35 @@ type FlattenDisjunctions struct {
 
 func (pass *FlattenDisjunctions) Process(schemas []*ast.Schema) ([]*ast.Schema, error) {
 	visitor := &Visitor{
-		OnDisjunction: pass.processDisjunction,
+		// branches can refer to objects of any of the schemas
+		OnDisjunction: func(_ *Visitor, _ *ast.Schema, def ast.Type) (ast.Type, error) {
+			def.Disjunction = pass.flattenDisjunction(schemas, def.AsDisjunction())
+
+			return def, nil
+		},
 	}
 
 	return visitor.VisitSchemas(schemas)
 }
 
-func (pass *FlattenDisjunctions) processDisjunction(_ *Visitor, schema *ast.Schema, def ast.Type) (ast.Type, error) {
-	def.Disjunction = pass.flattenDisjunction(schema, def.AsDisjunction())
+// branchIdentity tells branches apart: two references are the same branch
+// only when they designate the same object of the same package.
+func (pass *FlattenDisjunctions) branchIdentity(prefix string, index int, branch ast.Type) string {
+	typeName := ast.TypeName(branch)
 
-	return def, nil
+	switch {
+	case branch.IsStruct():
+		return fmt.Sprintf("%sbranch_%d", prefix, index)
+	case branch.IsConcreteScalar():
+		return fmt.Sprintf("concrete_%s_%v", typeName, branch.Scalar.Value)
+	case branch.IsRef():
+		return "ref_" + branch.Ref.String()
+	}
+
+	return typeName
 }
 
-func (pass *FlattenDisjunctions) flattenDisjunction(schema *ast.Schema, disjunction ast.DisjunctionType) *ast.DisjunctionType {
+func (pass *FlattenDisjunctions) flattenDisjunction(schemas ast.Schemas, disjunction ast.DisjunctionType) *ast.DisjunctionType {
 	newDisjunction := disjunction.DeepCopy()
 	newDisjunction.Branches = nil
 
@@ -74,36 +90,23 @@ func (pass *FlattenDisjunctions) flattenDisjunction(schema *ast.Schema, disjunct
 	}
 
 	for i, branch := range disjunction.Branches {
-		typeName := ast.TypeName(branch)
-		if branch.IsStruct() {
-			typeName = fmt.Sprintf("branch_%d", i)
-		}
-
-		if branch.IsConcreteScalar() {
-			typeName = fmt.Sprintf("concrete_%s_%v", typeName, branch.Scalar.Value)
-		}
+		typeName := pass.branchIdentity("", i, branch)
 
 		if !branch.IsRef() {
 			addBranch(typeName, branch)
 			continue
 		}
 
-		resolved, found := schema.Resolve(branch)
-		if !found {
-			// FIXME: error here?
-			continue
-		}
-
+		// a reference that does not resolve to a disjunction (or does not
+		// resolve at all) is a branch of its own
+		resolved := schemas.ResolveToType(branch)
 		if !resolved.IsDisjunction() {
 			addBranch(typeName, branch)
 			continue
 		}
 
 		for innerI, resolvedBranch := range resolved.AsDisjunction().Branches {
-			innerTypeName := ast.TypeName(resolvedBranch)
-			if branch.IsStruct() {
-				innerTypeName = fmt.Sprintf("inner_branch_%d", innerI)
-			}
+			innerTypeName := pass.branchIdentity("inner_", innerI, resolvedBranch)
 			// branches of another object: copy them, later passes rewrite types in place
 			addBranch(innerTypeName, resolvedBranch.DeepCopy())
 		}
